@@ -16,7 +16,8 @@ VARIABLES l, st, cur
 vars == <<l, st, cur>>
 R == Trace[l]
 
-Init == l = 1 /\ cur = {} /\ st = [lookups |-> 0, paths |-> 0, expired |-> 0, revoked |-> 0, nonempty |-> 0, phase |-> 0]
+Init == l = 1 /\ cur = {} /\ st = [lookups |-> 0, paths |-> 0, expired |-> 0, revoked |-> 0, nonempty |-> 0, phase |-> 0,
+                                    remote |-> 0, fetched |-> 0]
 
 IA(x) == [isd |-> x.isd, as |-> x.as]
 ReqSet(rs) == {Req(rs[i].t, IA(rs[i].src), IA(rs[i].dst)) : i \in DOMAIN rs}
@@ -49,14 +50,23 @@ Judge ==
                                         THEN {"local:not-exactly-one-empty-path"} ELSE {})
                 ELSE (IF ReqSet(R.reqs) # want THEN {"split:" \o R.cls} ELSE {}) \cup UNION {pathKeys(j) : j \in 1..np}
         live == {q \in cur : q.exp > R.now1 /\ ~Loopy(q.intfs) /\ ~\E i \in 1..Len(q.intfs) : Revoked(RevSet, q.intfs[i].ia, q.intfs[i].id, R.now1)}
+        \* remote mode: the first lookup fetches exactly the non-local (core, down) requests; the second one,
+        \* made immediately afterwards, asks again only for requests whose reply was empty (no next-query entry)
+        rpcset(rs) == {Req(rs[i].t, IA(rs[i].src), IA(rs[i].dst)) : i \in DOMAIN rs}
         drift == IF isLocal \/ R.dst.isd = 0 THEN {}
                  ELSE (IF {q.intfs : q \in live} # {P[j].intfs : j \in 1..np} THEN {"returned-set-differs-from-live-combinations"} ELSE {})
+                 \cup (IF R.mode = "remote" /\ rpcset(R.rpc1) # {r \in want : r.t # "up"} THEN {"rpc:first-lookup-fetches-other-requests"} ELSE {})
+                 \cup (IF R.mode = "remote" /\ R.revs = <<>> /\
+                         rpcset(R.rpc2) # {Req(R.rpc1[i].t, IA(R.rpc1[i].src), IA(R.rpc1[i].dst)) : i \in {j \in DOMAIN R.rpc1 : R.rpc1[j].n = 0}}
+                       THEN {"rpc:second-lookup-refetch-set"} ELSE {})
     IN  /\ \A k \in keys : PrintT(<<"VERIF-BAD", l, k>>)
         /\ \A k \in drift : PrintT(<<"VERIF-DRIFT", l, k>>)
         /\ st' = [lookups |-> st.lookups + 1, paths |-> st.paths + np,
                   expired |-> st.expired + Cardinality({q \in cur : q.exp <= R.now1}),
                   revoked |-> st.revoked + Cardinality({q \in cur : \E i \in 1..Len(q.intfs) : Revoked(RevSet, q.intfs[i].ia, q.intfs[i].id, R.now1)}),
-                  nonempty |-> st.nonempty + (IF np > 0 THEN 1 ELSE 0), phase |-> 0]
+                  nonempty |-> st.nonempty + (IF np > 0 THEN 1 ELSE 0), phase |-> 0,
+                  remote |-> st.remote + (IF R.mode = "remote" THEN 1 ELSE 0),
+                  fetched |-> st.fetched + (IF R.mode = "remote" /\ np > 0 /\ Len(R.rpc1) > 0 THEN 1 ELSE 0)]
 
 Step == /\ l <= Len(Trace)
         /\ IF R.ev = "lookup" /\ st.phase = 0 THEN Eval
@@ -72,6 +82,8 @@ Done == /\ l = Len(Trace) + 1
         /\ PrintT(<<"VERIF-STAT", "expiredcombos", st.expired>>)
         /\ PrintT(<<"VERIF-STAT", "revokedcombos", st.revoked>>)
         /\ PrintT(<<"VERIF-STAT", "nonempty", st.nonempty>>)
+        /\ PrintT(<<"VERIF-STAT", "remote", st.remote>>)
+        /\ PrintT(<<"VERIF-STAT", "remotewithpaths", st.fetched>>)
         /\ PrintT(<<"VERIF-DONE", Len(Trace)>>)
         /\ UNCHANGED vars
 
